@@ -90,10 +90,12 @@ def relations(kind: str, ind, snap: List[Dict]) -> Optional[Dict]:
         if kind == "SUPERTREND":
             if r["direction"] not in (1, -1):
                 return {"relation": "direction"}
-            if r["trend"] is not None:
+            if r["trend"] is not None or r["long"] is not None or r["short"] is not None:
+                # once a band exists: exactly one side is set, on the side of the direction, and it is the trend
                 if (r["long"] is None) == (r["short"] is None):
                     return {"relation": "long-xor-short"}
-                if (r["direction"] == 1 and r["long"] != r["trend"]) or (r["direction"] == -1 and r["short"] != r["trend"]):
+                if (r["direction"] == 1 and (r["long"] is None or r["long"] != r["trend"])) or \
+                        (r["direction"] == -1 and (r["short"] is None or r["short"] != r["trend"])):
                     return {"relation": "trend-equals-side"}
         if kind in ("SMA", "WMA", "VWMA", "EMA", "RMA"):
             src = getattr(ind, "input_value", "close")
@@ -219,6 +221,26 @@ def run(ctx: core.Ctx) -> int:
     for _ in range(ctx.n(420, 5000)):
         c = E.gen_case(rng, ctx, kinds, allow_ha=False, inputs_base=("close", "close", "high", "low"))
         cases.append(c)
+    for k_ in range(ctx.n(9, 90)):
+        # Supertrend over identical candles whose mid-price is exactly multiplier * range: the active band
+        # sits at exactly 0.0 - a value, not a missing reading
+        m_ = (1, 2, 3)[k_ % 3]
+        lo_, hi_ = {1: (2, 6), 2: (3, 5), 3: (5, 7)}[m_]
+        scale_ = rng.choice([1, 1, 2])
+        lo_, hi_ = lo_ * scale_, hi_ * scale_
+        mid_ = (lo_ + hi_) / 2
+        n_ = rng.randint(12, 30)
+        rows_ = [{"ts": 1700000000 + 60 * j_, "open": mid_, "high": float(hi_), "low": float(lo_), "close": mid_, "volume": 10, "inds": {}}
+                 for j_ in range(n_)]
+        init_, chunks_ = rows_[:rng.randint(0, 3)], []
+        rest_ = rows_[len(init_):]
+        while rest_:
+            m2_ = rng.choice([1, 2, 5])
+            chunks_.append(rest_[:m2_])
+            rest_ = rest_[m2_:]
+        cases.append({"spec": {"kind": "SUPERTREND", "kw": {"period": rng.choice([2, 3, 7]), "multiplier": float(m_)}, "round_value": 4},
+                      "cfg": {}, "rows": rows_, "init": init_, "chunks": chunks_,
+                      "meta": {"kind": "SUPERTREND", "n": n_, "step": 60, "ts_mode": "regular", "cfg": {}}})
     for c in cases:
         ctx.count("eval_falsifier")
         falsify(ctx, c)
